@@ -495,7 +495,10 @@ func TestCheck(t *testing.T) {
 	for i := range cases {
 		c := &cases[i]
 		if c.Stat != nil {
+			// replay of a statistical violation = rerun of the engine with the stored parameters; the (empty) model
+			// case only keeps the case files well-formed
 			judgeStat(t, run, *c.Stat)
+			run.Add(coqCase(&Case{W: 1}), c, false)
 			continue
 		}
 		if c.W > realWorkers() {
@@ -535,10 +538,14 @@ func TestCheck(t *testing.T) {
 
 // statPlan: the statistical engines of one run.
 func statPlan(env vh.Env) []StatParams {
+	f := 1
+	if env.Tier == "thorough" {
+		f = 6
+	}
 	return []StatParams{
-		{Engine: "pipeline", Rounds: env.N(1500, 6), Submitters: 4, PerRound: 8, Note: replayNote},
-		{Engine: "direct", Rounds: env.N(150000, 6), Racers: 2, Note: replayNote},
-		{Engine: "direct", Rounds: env.N(100000, 6), Racers: 3, Note: replayNote},
+		{Engine: "pipeline", Rounds: env.N(3000, 6), Submitters: 4, PerRound: 8, BudgetMs: 8000 * f, Note: replayNote},
+		{Engine: "direct", Rounds: env.N(400000, 6), Racers: 2, BudgetMs: 4000 * f, Note: replayNote},
+		{Engine: "direct", Rounds: env.N(300000, 6), Racers: 3, BudgetMs: 4000 * f, Note: replayNote},
 	}
 }
 
